@@ -436,6 +436,9 @@ V_ = "d42/validation/_validator.py"
 SV = "d42/substitution/_validator.py"
 F_ = "d42/validation/_formatter.py"
 MUTANTS = [
+    {"name": "float bounds checked on round(value, precision) but reported for the value", "rule": "FACT-AGREE",
+     "edits": [(V_, "        if schema.props.min is not Nil:\n            if value < schema.props.min:\n                result.add_error(MinValueValidationError(path, value, schema.props.min))\n\n        if schema.props.max is not Nil:\n            if value > schema.props.max:\n                result.add_error(MaxValueValidationError(path, value, schema.props.max))\n\n        return result\n\n    def visit_str",
+                "        comparable = value if schema.props.precision is Nil else round(value, schema.props.precision)\n        if schema.props.min is not Nil:\n            if comparable < schema.props.min:\n                result.add_error(MinValueValidationError(path, value, schema.props.min))\n\n        if schema.props.max is not Nil:\n            if comparable > schema.props.max:\n                result.add_error(MaxValueValidationError(path, value, schema.props.max))\n\n        return result\n\n    def visit_str")]},
     {"name": "alphabet error with fresh PathHolder (F3 reverted)", "rule": "PATH-ARG",
      "edits": [(V_, "AlphabetValidationError(path, value, schema.props.alphabet)", "AlphabetValidationError(PathHolder(), value, schema.props.alphabet)")]},
     {"name": "deepcopy dropped at the dict descent", "rule": "DESCENT-PAIR",
